@@ -14,10 +14,47 @@ import (
 //	'r' reference to object R of the graph
 //	'x' dangling reference (object number beyond the xref size)
 //	'f' reference to a free object (allocated, never written)
+//	'g' stale reference to object R: the number of a live object with a wrong
+//	    generation ("N 1 R" while "N 0 obj" exists); resolves to null
+//	'A' direct array with one element, 'T' direct dictionary with one entry /N:
+//	    a nested direct container; the inner value is a string if R < 0 and a
+//	    reference to object R otherwise
+//	'm' the string inside a nested container (only used by the oracle)
 type Item struct {
 	K byte
 	R int
 }
+
+// innerStr as R of a nested container: the inner value is a string.
+const innerStr = -1
+
+// inner returns the item inside a nested direct container.
+func (it Item) inner() Item {
+	if it.R < 0 {
+		return Item{K: 'm'}
+	}
+	return Item{'r', it.R}
+}
+
+// edge reports the object the item really refers to (a live reference,
+// directly or inside a nested container).
+func (it Item) edge() (int, bool) {
+	if it.K == 'r' || (it.K == 'A' || it.K == 'T') && it.R >= 0 {
+		return it.R, true
+	}
+	return 0, false
+}
+
+// mention is edge plus stale references: the objects whose number occurs.
+func (it Item) mention() (int, bool) {
+	if it.K == 'g' {
+		return it.R, true
+	}
+	return it.edge()
+}
+
+// refLike: the item is a reference (live or stale) to an object of the graph.
+func (it Item) refLike() bool { return it.K == 'r' || it.K == 'g' }
 
 // Obj is one indirect object of a source graph.
 //
@@ -47,8 +84,17 @@ const (
 var stmNames = []string{"plain", "flate", "indirect-length", "indirect-filter-parms", "array-of-indirect-filter-parms"}
 
 func (it Item) String() string {
-	if it.K == 'r' {
+	switch it.K {
+	case 'r':
 		return string(rune('0' + it.R))
+	case 'g':
+		return "~" + string(rune('0'+it.R))
+	case 'A':
+		return "[" + it.inner().String() + "]"
+	case 'T':
+		return "<" + it.inner().String() + ">"
+	case 'm':
+		return "s"
 	}
 	return string(rune(it.K))
 }
@@ -84,7 +130,8 @@ func (o Obj) String() string {
 }
 
 // String renders the graph in the syntax ParseGraph reads:
-// "[0a] <1x> S3<2> ^0 i s".
+// "[0a] <1x> S3<2> ^0 i s"; "~1" is a stale reference to object 1, "[[s]]",
+// "<<1>>", "S0<[s]>" hold a nested direct container.
 func (g Graph) String() string {
 	parts := make([]string, len(g))
 	for i, o := range g {
@@ -93,24 +140,39 @@ func (g Graph) String() string {
 	return strings.Join(parts, " ")
 }
 
-func parseItem(c byte) (Item, error) {
-	switch {
-	case c >= '0' && c <= '9':
-		return Item{'r', int(c - '0')}, nil
-	case strings.IndexByte("isnadxf", c) >= 0:
-		return Item{K: c}, nil
-	}
-	return Item{}, fmt.Errorf("bad item %q", c)
-}
-
 func parseItems(s string) ([]Item, error) {
 	var out []Item
 	for i := 0; i < len(s); i++ {
-		it, err := parseItem(s[i])
-		if err != nil {
-			return nil, err
+		c := s[i]
+		switch {
+		case c >= '0' && c <= '9':
+			out = append(out, Item{'r', int(c - '0')})
+		case strings.IndexByte("isnadxf", c) >= 0:
+			out = append(out, Item{K: c})
+		case c == '~' && i+1 < len(s) && s[i+1] >= '0' && s[i+1] <= '9':
+			out = append(out, Item{'g', int(s[i+1] - '0')})
+			i++
+		case c == '[' || c == '<':
+			closer := byte(']')
+			k := byte('A')
+			if c == '<' {
+				closer, k = '>', 'T'
+			}
+			if i+2 >= len(s) || s[i+2] != closer {
+				return nil, fmt.Errorf("bad nested container in %q", s)
+			}
+			switch in := s[i+1]; {
+			case in == 's':
+				out = append(out, Item{k, innerStr})
+			case in >= '0' && in <= '9':
+				out = append(out, Item{k, int(in - '0')})
+			default:
+				return nil, fmt.Errorf("bad nested container in %q", s)
+			}
+			i += 2
+		default:
+			return nil, fmt.Errorf("bad item %q", c)
 		}
-		out = append(out, it)
 	}
 	return out, nil
 }
@@ -137,9 +199,12 @@ func ParseGraph(s string) (Graph, error) {
 				return nil, fmt.Errorf("bad stream variant in %q", f)
 			}
 			o.It, err = parseItems(f[3 : len(f)-1])
-		case f[0] == '^' && len(f) == 2:
+		case f[0] == '^' && len(f) >= 2:
 			o.K = 'r'
 			o.It, err = parseItems(f[1:])
+			if err == nil && len(o.It) != 1 {
+				err = fmt.Errorf("bad object %q", f)
+			}
 		default:
 			return nil, fmt.Errorf("bad object %q", f)
 		}
@@ -150,11 +215,14 @@ func ParseGraph(s string) (Graph, error) {
 	}
 	for _, o := range g {
 		for _, it := range o.It {
-			if it.K == 'r' && it.R >= len(g) {
-				return nil, fmt.Errorf("reference to object %d in a graph of %d", it.R, len(g))
+			if j, ok := it.mention(); ok && j >= len(g) {
+				return nil, fmt.Errorf("reference to object %d in a graph of %d", j, len(g))
 			}
 		}
-		if o.K == 'r' && strings.IndexByte("rxf", o.It[0].K) < 0 {
+		if o.K == 'S' && len(o.It) > 1 {
+			return nil, fmt.Errorf("a stream has at most one entry")
+		}
+		if o.K == 'r' && strings.IndexByte("rxfg", o.It[0].K) < 0 {
 			return nil, fmt.Errorf("bare reference object must hold a reference")
 		}
 	}
@@ -166,6 +234,11 @@ func (g Graph) size() int {
 	n := 0
 	for _, o := range g {
 		n += 10 + len(o.It)
+		for _, it := range o.It {
+			if it.K == 'A' || it.K == 'T' {
+				n++
+			}
+		}
 		if o.K == 'S' {
 			n += 3 + o.V
 		}
@@ -196,13 +269,14 @@ func (g Graph) terminal(j int) (t int, via []int) {
 		}
 		it := g[j].It[0]
 		if it.K != 'r' {
-			return termNull, via
+			return termNull, via // dangling, free, stale
 		}
 		j = it.R
 	}
 }
 
-// itemTerminal resolves an item that is a reference.
+// itemTerminal resolves an item that is a reference (a stale reference, like
+// a dangling one, leads to no object).
 func (g Graph) itemTerminal(it Item) (int, []int) {
 	if it.K == 'r' {
 		return g.terminal(it.R)
@@ -220,14 +294,14 @@ func (g Graph) reachFromItems(its []Item) int {
 		}
 		set |= 1 << j
 		for _, it := range g[j].It {
-			if it.K == 'r' {
-				visit(it.R)
+			if k, ok := it.edge(); ok {
+				visit(k)
 			}
 		}
 	}
 	for _, it := range its {
-		if it.K == 'r' {
-			visit(it.R)
+		if k, ok := it.edge(); ok {
+			visit(k)
 		}
 	}
 	return set
@@ -245,15 +319,17 @@ func (g Graph) hasRefLoop(set int) bool {
 }
 
 // weaklyConnected reports whether the graph is connected when edges are
-// read without direction.
+// read without direction. A stale reference counts as an edge here (it is no
+// edge of the source graph, but it ties the object it names into the case: a
+// program can copy both).
 func (g Graph) weaklyConnected() bool {
 	n := len(g)
 	adj := make([]int, n)
 	for j, o := range g {
 		for _, it := range o.It {
-			if it.K == 'r' {
-				adj[j] |= 1 << it.R
-				adj[it.R] |= 1 << j
+			if k, ok := it.mention(); ok {
+				adj[j] |= 1 << k
+				adj[k] |= 1 << j
 			}
 		}
 	}
@@ -286,9 +362,28 @@ type alphabet struct {
 	variants []int // stream variants
 	stmBare  bool  // streams without /K entry
 	bareDead bool  // bare references to dangling / free
+	// stale: the item kind "stale reference to object j" for every object of
+	// the graph, alone in a container, as a bare reference object, and in
+	// two-item containers next to a live or stale reference (both orders)
+	stale bool
+	// nested: a direct array / dictionary holding a string or a reference to
+	// an object of the graph, as the only item of a container or the /K entry
+	// of a stream
+	nested bool
 }
 
 var rich = alphabet{name: "rich", items: "isnadxf", scalars: true, empties: true, arr2: true, dict1: true, dict2: true,
+	variants: []int{0, 1, 2, 3, 4}, stmBare: true, bareDead: true, stale: true, nested: true}
+
+// richNested is rich without stale references: for the spaces that multiply
+// the value kinds with the encryption configurations (a stale reference is a
+// matter of translating references, the same under every configuration).
+var richNested = alphabet{name: "rich-nostale", items: "isnadxf", scalars: true, empties: true, arr2: true, dict1: true, dict2: true,
+	variants: []int{0, 1, 2, 3, 4}, stmBare: true, bareDead: true, nested: true}
+
+// richFlat is rich without stale references and nested containers (the
+// 3-object product of rich is out of reach).
+var richFlat = alphabet{name: "rich-flat", items: "isnadxf", scalars: true, empties: true, arr2: true, dict1: true, dict2: true,
 	variants: []int{0, 1, 2, 3, 4}, stmBare: true, bareDead: true}
 
 // lean keeps every way of linking objects and drops the value variety.
@@ -299,6 +394,16 @@ var lean = alphabet{name: "lean", items: "ix", scalars: true, arr2: true, dict1:
 var mid = alphabet{name: "mid", items: "inax", scalars: true, empties: true, arr2: true, dict1: true, dict2: false,
 	variants: []int{0, 3}, stmBare: true, bareDead: true}
 
+// leanStale, midStale: the same with stale references.
+var leanStale = withStale(lean)
+var midStale = withStale(mid)
+
+func withStale(a alphabet) alphabet {
+	a.name += "+stale"
+	a.stale = true
+	return a
+}
+
 func (a alphabet) itemList(n int) []Item {
 	var its []Item
 	for i := 0; i < len(a.items); i++ {
@@ -307,12 +412,43 @@ func (a alphabet) itemList(n int) []Item {
 	for j := 0; j < n; j++ {
 		its = append(its, Item{'r', j})
 	}
+	if a.stale {
+		for j := 0; j < n; j++ {
+			its = append(its, Item{'g', j})
+		}
+	}
 	return its
+}
+
+// nestedList lists the nested direct containers of the alphabet.
+func (a alphabet) nestedList(n int) []Item {
+	if !a.nested {
+		return nil
+	}
+	var its []Item
+	for _, k := range []byte{'A', 'T'} {
+		its = append(its, Item{k, innerStr})
+		for j := 0; j < n; j++ {
+			its = append(its, Item{k, j})
+		}
+	}
+	return its
+}
+
+// pairOK: which two items may share a container. A stale reference is only
+// paired with a live or stale reference (its interaction is with the
+// translation of references, not with values).
+func pairOK(x, y Item) bool {
+	if x.K == 'g' && !y.refLike() || y.K == 'g' && !x.refLike() {
+		return false
+	}
+	return true
 }
 
 // kinds lists every object of the alphabet for a graph of n objects.
 func (a alphabet) kinds(n int) []Obj {
 	its := a.itemList(n)
+	single := append(append([]Item{}, its...), a.nestedList(n)...)
 	var out []Obj
 	if a.scalars {
 		out = append(out, Obj{K: 'i'}, Obj{K: 's'})
@@ -322,25 +458,29 @@ func (a alphabet) kinds(n int) []Obj {
 	if a.empties {
 		out = append(out, Obj{K: 'A'}, Obj{K: 'D'})
 	}
-	for _, x := range its {
+	for _, x := range single {
 		out = append(out, Obj{K: 'A', It: []Item{x}})
 	}
 	if a.arr2 {
 		for _, x := range its {
 			for _, y := range its {
-				out = append(out, Obj{K: 'A', It: []Item{x, y}})
+				if pairOK(x, y) {
+					out = append(out, Obj{K: 'A', It: []Item{x, y}})
+				}
 			}
 		}
 	}
 	if a.dict1 {
-		for _, x := range its {
+		for _, x := range single {
 			out = append(out, Obj{K: 'D', It: []Item{x}})
 		}
 	}
 	if a.dict2 {
 		for _, x := range its {
 			for _, y := range its {
-				out = append(out, Obj{K: 'D', It: []Item{x, y}})
+				if pairOK(x, y) {
+					out = append(out, Obj{K: 'D', It: []Item{x, y}})
+				}
 			}
 		}
 	}
@@ -348,8 +488,8 @@ func (a alphabet) kinds(n int) []Obj {
 		if a.stmBare {
 			out = append(out, Obj{K: 'S', V: v})
 		}
-		for _, x := range its {
-			if !a.stmBare && x.K != 'r' {
+		for _, x := range single {
+			if !a.stmBare && !x.refLike() {
 				continue
 			}
 			out = append(out, Obj{K: 'S', V: v, It: []Item{x}})
@@ -363,6 +503,11 @@ func (a alphabet) kinds(n int) []Obj {
 	} else {
 		out = append(out, Obj{K: 'r', It: []Item{{K: 'x'}}})
 	}
+	if a.stale {
+		for j := 0; j < n; j++ {
+			out = append(out, Obj{K: 'r', It: []Item{{'g', j}}})
+		}
+	}
 	return out
 }
 
@@ -372,8 +517,8 @@ func objKey(o Obj, perm []int) string {
 	k := b[:0]
 	k = append(k, o.K, byte('0'+o.V))
 	for _, it := range o.It {
-		if it.K == 'r' {
-			k = append(k, 'r', byte('0'+perm[it.R]))
+		if j, ok := it.mention(); ok {
+			k = append(k, it.K, byte('0'+perm[j]))
 		} else {
 			k = append(k, it.K, ' ')
 		}
